@@ -73,18 +73,25 @@ def case(draw):
     allow_zero = True
     c["params"] = draw(G.params(n_blocs=nb, max_slate=3 if nb <= 2 else 2, allow_zero=allow_zero))
     if two:
-        # these models read interval.keys(): keep every support positive, own slate listed first
+        # these models read interval.keys(): keep every support positive (the inner dictionaries
+        # keep their generated key order: they are keyed by bloc name)
         p = c["params"]
         for b in p["intervals"]:
             for b2 in p["intervals"][b]:
                 for k, v in p["intervals"][b][b2].items():
                     if C.frac(v) == 0:
                         p["intervals"][b][b2][k] = 1
-            p["intervals"][b] = {b: p["intervals"][b][b], **{b2: v for b2, v in p["intervals"][b].items() if b2 != b}}
         if model == "CambridgeSampler":
             # W_bloc defaults to the bloc with proportion >= 0.5; keep that well defined
             if C.frac(p["prop"]["W"]) < Fraction(1, 2):
                 p["prop"]["W"], p["prop"]["C"] = p["prop"]["C"], p["prop"]["W"]
+    if draw(st.integers(0, 4)) == 0:
+        # construct through BallotGenerator.from_params (intervals drawn from Dirichlet distributions)
+        c["via"] = "from_params"
+        c["alphas"] = {b: {b2: draw(st.sampled_from([0.5, 1, 2, 10])) for b2 in c["params"]["slates"]}
+                       for b in c["params"]["slates"]}
+    if model == "CambridgeSampler" and draw(st.booleans()):
+        c["explicit_WC"] = True
     ncand = sum(len(v) for v in c["params"]["slates"].values())
     if model == "short_name_PlackettLuce":
         c["ballot_length"] = draw(st.integers(1, ncand))
@@ -248,8 +255,20 @@ def check(case):
         extra["ballot_length"] = case["ballot_length"]
     if model == "name_Cumulative":
         extra["num_votes"] = case["num_votes"]
+    if case.get("explicit_WC"):
+        extra.update(W_bloc="W", C_bloc="C")
     try:
-        g = G.make(cls_name, params, **extra)
+        if case.get("via") == "from_params":
+            kw0 = G.build_kwargs(params)
+            with R.owned(seed) as _:
+                g = getattr(bg, cls_name).from_params(
+                    slate_to_candidates=kw0["slate_to_candidates"], bloc_voter_prop=kw0["bloc_voter_prop"],
+                    cohesion_parameters=kw0["cohesion_parameters"], alphas=case["alphas"], **extra)
+            # Dirichlet draws are positive: no zero-support candidate except through a 0 cohesion
+            params = dict(params, intervals={b: {b2: {c: 1 for c in slates[b2]} for b2 in blocs} for b in blocs})
+            out.label("via_from_params")
+        else:
+            g = G.make(cls_name, params, **extra)
     except Exception as exc:  # noqa: BLE001
         out.fail("construct", type(exc).__name__, f"{model} {params}: {exc!r}")
         return out
